@@ -543,6 +543,15 @@ class _Flattener:
                         rep = self.expand(s.value, c, 'return', caller_names, stack, depth)
                         if rep is not None and _may_fall_off(rep):
                             rep.append(ast.copy_location(ast.Return(value=ast.copy_location(ast.Constant(value=None), s)), s))
+                elif isinstance(s, ast.For) and isinstance(s.iter, ast.Call) and self.callee_of(s.iter, stack) is not None:
+                    # for x in self.m(...):   ->   m__result = self.m(...)  [expanded];  for x in m__result:
+                    c = self.callee_of(s.iter, stack)
+                    self.k += 1
+                    tmp = '%s__result%d' % (c.name.strip('_'), self.k)
+                    pre = self.expand(s.iter, c, ast.Name(id=tmp, ctx=ast.Store()), caller_names, stack, depth)
+                    if pre is not None:
+                        s.iter = ast.copy_location(ast.Name(id=tmp, ctx=ast.Load()), s.iter)
+                        out.extend(pre)
                 elif isinstance(s, ast.If):
                     t = s.test
                     neg = isinstance(t, ast.UnaryOp) and isinstance(t.op, ast.Not)
